@@ -6,14 +6,15 @@ from mc.chartgen import skeletons, flatten, add_scheme_S, describe, has_variant
 
 PLAN = {
     # (nmin, nmax, k, eventless twins)
-    'quick': [(2, 4, 2, True), (5, 5, 2, False), (5, 6, '3o', False)],
-    'thorough': [(2, 4, 3, True), (5, 5, 2, True), (5, 6, 3, False), (7, 7, '3o', False)],
+    'quick': [(2, 4, 2, True), (2, 4, 2, 'internal'), (5, 5, 2, False), (5, 6, '3o', False)],
+    'thorough': [(2, 4, 3, 'both'), (5, 5, 2, 'both'), (5, 6, 3, False), (7, 7, '3o', False)],
 }
 
 
 def make_spec(task):
     tree, scheme, ivar, k, twin = task
-    return add_scheme_S(flatten(tree, scheme, ivar), eventless_twin=twin, counter=True)
+    return add_scheme_S(flatten(tree, scheme, ivar), eventless_twin=twin in (True, 'both'), counter=True,
+                        internal_twin=twin in ('internal', 'both'))
 
 
 def work(task):
